@@ -56,7 +56,7 @@ def main(argv: list[str]) -> int:
         finally:
             if cov is not None:
                 cov.stop()
-                per_file = {}
+                per_file, missing_lines = {}, {}
                 for fn in sorted(cov.get_data().measured_files()):
                     try:
                         _, stmts, _, missing, _ = cov.analysis2(fn)
@@ -72,9 +72,14 @@ def main(argv: list[str]) -> int:
                         missing = [x for x in missing if x in body_lines]
                         if stmts:
                             per_file[os.path.relpath(fn, common.REPO)] = round(100.0 * (len(stmts) - len(missing)) / len(stmts), 1)
+                            missing_lines[os.path.relpath(fn, common.REPO)] = missing
                     except Exception:  # noqa: BLE001
                         pass
                 ctx.extra["line_coverage_percent_of_pyjelly_files_during_this_run"] = per_file
+                if os.environ.get("VERIF_COVERAGE_DUMP"):  # developer aid: which lines of the code under test this check never ran
+                    import json
+                    with open(os.environ["VERIF_COVERAGE_DUMP"], "w") as fh:
+                        json.dump(missing_lines, fh)
         return framework.finish(ctx, b, spec)
     except common.DriverError as e:
         print(f"tooling failure: {e}")
